@@ -552,4 +552,74 @@ def contentOfWith (m : Msg) (strict : Bool) (fresh : Res) : Res :=
         | .verr => if strict then .verr else .ok raw
         | _ => .terr
 
+/-! ### round 6 (owner fixes): the clause "no result ever depends on earlier calls" at BYTE level, for encode results -/
+
+/-- **C31, sentence 5 read byte-wise for `encoding.encode`**: in every reachable state the result equals what a process
+    without history returns.  FALSE on the current code and in the model — by design of the cache (it hands back the
+    peer's original bytes when the content is re-encoded unchanged); see `encode_history_independent_counterexample`.
+    Proved: the results are equal UP TO WHAT THEY DECODE TO (`encode_history_independent_partial` =
+    `encode_semantically_transparent`) and byte-wise unless the call is a cache hit on a non-canonical entry
+    (`encode_bytes_history_independent_partial_hit`, `…_partial`). -/
+def EncodeHistoryIndependent (C : Codecs) : Prop :=
+  ∀ (s0 : State) (ops : List Op) (d c e : Bytes), s0.cache = none →
+    (step C (run C s0 ops).1 (.enc d c e)).2 = uncachedEnc C c e d
+
+/-- **the same for the raw body stored by an assignment** (`set_content(bytes)`, `Message.encode`): the raw body after
+    the op equals the raw body after the same op on the same message state with an EMPTY cache.  FALSE by design, see
+    `stored_raw_history_independent_counterexample`; proved up to meaning (`raw_decodes_to_content_lenient`,
+    `set_get_content`) and byte-wise outside non-canonical hits (`stored_raw_history_independent_partial_hit`). -/
+def StoredRawHistoryIndependent (C : Codecs) : Prop :=
+  ∀ (s0 : State) (ops : List Op) (i : Bool), s0.cache = none →
+    (∀ v : Bytes,
+      ((step C (run C s0 ops).1 (.setContent i (some v))).1.msg i).raw =
+      ((step C { (run C s0 ops).1 with cache := none } (.setContent i (some v))).1.msg i).raw) ∧
+    (∀ cd : Bytes,
+      ((step C (run C s0 ops).1 (.mencode i cd)).1.msg i).raw =
+      ((step C { (run C s0 ops).1 with cache := none } (.mencode i cd)).1.msg i).raw)
+
+/-- the call `encode(d, n, e)` is a cache hit whose entry does NOT hold the bytes the uncached encoder produces for `d`
+    (such an entry can only have been made by a decode of a non-canonical — e.g. differently compressed — body) -/
+def nonCanonicalHit (C : Codecs) (c : Cache) (d n e : Bytes) : Bool :=
+  match encHit c d n e with
+  | some x => C.enc n e d != .ok x
+  | none => false
+
+/-- guard on one op: a successful decode of a compressed coding was of the canonical bytes (what the encoder emits) -/
+def canonOp (C : Codecs) (s : State) (op : Op) : Bool :=
+  match need s op with
+  | .dec n e x =>
+    if kindOf n = .cached then
+      match C.dec n e x with
+      | .ok d => C.enc n e d == .ok x
+      | _ => true
+    else true
+  | _ => true
+
+/-- decidable guard on a history: every decoded body was canonical -/
+def canonHist (C : Codecs) (s : State) : List Op → Bool
+  | [] => true
+  | op :: ops => canonOp C s op && canonHist C (step C s op).1 ops
+
+/-- a second library instance, with `decompress [] = some []` (the law `decompress_empty` is not vacuous on it):
+    the identity "compressor" -/
+def idLib : Lib where
+  compress := fun _ d => d
+  decompress := fun _ x => some x
+  inflateRaw := fun _ => none
+  roundtrip := by intro n d; rfl
+  decompress_empty := by intro n d h; cases h; rfl
+
+/-- `lenientHit` / `nonCanonicalHit` with the one library value they consult supplied from outside (the strict reference
+    decoder's verdict on the cache entry's bytes, resp. the uncached encoder's result) — the forms the driver runs before
+    every assignment / encode; `lenientHit_eq_with` and `nonCanonicalHit_eq_with` (Props) identify them -/
+def lenientHitWith (c : Cache) (v n : Bytes) (refOfEntry : Option Bytes) : Bool :=
+  match encHit c v n strictB with
+  | some _ => refOfEntry != some v
+  | none => false
+
+def nonCanonicalHitWith (c : Cache) (d n e : Bytes) (enc : Res) : Bool :=
+  match encHit c d n e with
+  | some x => enc != .ok x
+  | none => false
+
 end MitmVerif.C31
